@@ -215,6 +215,8 @@ func init() {
 			for p := 1; p <= Hi(t, 3, 4); p++ {
 				r = append(r, []float64{float64(p), 80, 20}, []float64{float64(p), 50, 50})
 			}
+			// levels at and beyond the ends of the indicator's range [0, 100]
+			r = append(r, []float64{2, 110, 20}, []float64{2, 80, -10}, []float64{2, 100, 0})
 			return r
 		},
 		New: func(c []float64) strategy.Strategy {
